@@ -33,6 +33,10 @@ type Inst struct {
 	// Clock is the mock clock of an instance created with Options.MockClock.
 	Clock *clock.Mock
 
+	// split contexts (Options.SplitCtx): base of the run context
+	runBase   context.Context
+	runCancel context.CancelFunc
+
 	sub     chan tracing.ITrace
 	mu      sync.Mutex
 	traces  []tracing.ITrace
@@ -50,6 +54,10 @@ type Options struct {
 	Extra   []bpmn.Option
 	Tracker *quiesce.Tracker // nil: a new baseline is taken
 	Ctx     context.Context
+	// SplitCtx: the context the instance is STARTED with does not descend from
+	// the context it is CONSTRUCTED with (bpmn.WithContext): Inst.CancelBuild
+	// ends the construction context alone.
+	SplitCtx bool
 	// MockClock gives the instance a mock clock (at ClockBase), an own event
 	// bus and the timer event definition builder, so that timer events in the
 	// model fire when the test advances Inst.Clock - no real time involved.
@@ -104,6 +112,12 @@ func NewFromDefs(defs *schema.Definitions, tr *quiesce.Tracker, o Options) (*Ins
 		return nil, fmt.Errorf("new process: %w", err)
 	}
 	in := &Inst{Defs: defs, P: p, Ctx: ctx, Cancel: cancel, Tr: tr, Clock: mock, readerD: make(chan struct{})}
+	if o.SplitCtx {
+		in.runBase, in.runCancel = context.WithCancel(context.Background())
+		if mock != nil {
+			in.runBase = clock.ToContext(in.runBase, mock)
+		}
+	}
 	in.sub = p.Tracer().SubscribeChannel(make(chan tracing.ITrace))
 	go in.reader()
 	return in, nil
@@ -140,7 +154,20 @@ const RunValue = "verif-run"
 // RunContext is the context handed to StartAll: derived from the instance's
 // context (so Cancel reaches it) plus the run value.
 func (in *Inst) RunContext() context.Context {
+	if in.runBase != nil {
+		return context.WithValue(in.runBase, runKey{}, RunValue)
+	}
 	return context.WithValue(in.Ctx, runKey{}, RunValue)
+}
+
+// CancelBuild ends the construction context only (Options.SplitCtx).
+func (in *Inst) CancelBuild() { in.Cancel() }
+
+// CancelRun ends the context the instance was started with (Options.SplitCtx).
+func (in *Inst) CancelRun() {
+	if in.runCancel != nil {
+		in.runCancel()
+	}
 }
 
 // CarriesRun reports whether a task request's context descends from the
@@ -182,6 +209,9 @@ func (in *Inst) TraceCount() int {
 // Close cancels the instance and waits (bounded) for the reader to end.
 func (in *Inst) Close() {
 	in.Cancel()
+	if in.runCancel != nil {
+		in.runCancel()
+	}
 	t0 := time.Now()
 	defer func() {
 		if d := time.Since(t0); d > 200*time.Millisecond && os.Getenv("VERIF_DEBUG") != "" {
